@@ -95,6 +95,52 @@ pub fn table(o: &Opts) -> Table {
     t
 }
 
+/// like `table`, but a "field" is a leaf parser (one name set) rather than a member of the top
+/// `Seq`: named items of one group, or of two exclusive alternatives, feed different fields of
+/// the result and may be permuted; the members of an alternative under a repetition feed one
+/// list and keep their order; a name declared in several branches is one field
+pub fn fine_table(o: &Opts) -> Table {
+    let mut t = table(o);
+    let mut ids: BTreeMap<String, usize> = BTreeMap::new();
+    let mut counter = 0usize;
+    fn assign(p: &P, multi: bool, forced: Option<usize>, ids: &mut BTreeMap<String, usize>, counter: &mut usize) {
+        let mut leaf = |n: &Names, ids: &mut BTreeMap<String, usize>, counter: &mut usize| {
+            let keys: Vec<String> = n.shorts.iter().map(|c| format!("-{}", c)).chain(n.longs.iter().map(|l| format!("--{}", l))).collect();
+            let id = forced.or_else(|| keys.iter().find_map(|k| ids.get(k).copied())).unwrap_or_else(|| {
+                *counter += 1;
+                *counter
+            });
+            for k in keys {
+                ids.entry(k).or_insert(id);
+            }
+        };
+        match p {
+            P::Switch(n) | P::ReqFlag(n) | P::Flag(n) => leaf(n, ids, counter),
+            P::Arg { names, .. } => leaf(names, ids, counter),
+            P::Cmd { .. } => {}
+            P::Many(x, _) | P::Some_(x, _) | P::Collect(x, _) | P::Count(x) | P::Last(x) => assign(x, true, forced, ids, counter),
+            P::Alt(v) if multi && forced.is_none() => {
+                *counter += 1;
+                let id = *counter;
+                v.iter().for_each(|x| assign(x, multi, Some(id), ids, counter));
+            }
+            _ => p.children(&mut |c| assign(c, multi, forced, ids, counter)),
+        }
+    }
+    assign(&o.p, false, None, &mut ids, &mut counter);
+    for (c, info) in t.shorts.iter_mut() {
+        if let Some(id) = ids.get(&format!("-{}", c)) {
+            info.field = 1000 + *id;
+        }
+    }
+    for (l, info) in t.longs.iter_mut() {
+        if let Some(id) = ids.get(&format!("--{}", l)) {
+            info.field = 1000 + *id;
+        }
+    }
+    t
+}
+
 #[derive(Clone, Debug, PartialEq, Eq)]
 pub enum BlockKind {
     Flag,
